@@ -214,18 +214,30 @@ class SuperSpeedEndpointMultiplexer(Elaboratable):
         #
         # Multiplex each of our handshake-out interfaces.
         #
-        for interface in self._interfaces:
-            any_generate_signal_asserted = (
+        def is_requesting(interface):
+            return (
                 interface.handshakes_out.send_ack   |
                 interface.handshakes_out.send_stall |
                 interface.handshakes_out.send_nrdy  |
                 interface.handshakes_out.send_erdy
             )
 
-            # If the given interface is trying to send an handshake, connect it up
-            # to our shared interface.
-            with m.If(any_generate_signal_asserted):
-                m.d.comb += shared.handshakes_out.connect(interface.handshakes_out)
+        for index, interface in enumerate(self._interfaces):
+
+            # If several interfaces request a handshake at once, the last one is the one the generator sees; so
+            # only that interface may be told that the generator is ``ready`` to accept its request. The others
+            # keep waiting for their turn.
+            later_interfaces      = self._interfaces[index + 1:]
+            overridden_by_another = functools.reduce(operator.__or__, (is_requesting(i) for i in later_interfaces), Const(0))
+
+            with m.If(is_requesting(interface)):
+
+                # Every requesting interface gets to see when the generator completes its current packet...
+                m.d.comb += interface.handshakes_out.done.eq(shared.handshakes_out.done)
+
+                # ... but only one of them is connected up to our shared interface.
+                with m.If(~overridden_by_another):
+                    m.d.comb += shared.handshakes_out.connect(interface.handshakes_out)
 
 
         #
